@@ -360,15 +360,15 @@ func loadGenuineBlocks() []*hblock {
 	// complete, currently valid sets (pre-merge): header by hash / by number, body, receipts
 	var valid []vector
 	for _, f := range []string{"1", "100", "7000000", "15537393"} {
-		valid = append(valid, loadVectorFile("/repo/history/testdata/validation/"+f+".yaml", "history")...)
+		valid = append(valid, loadVectorFile(repoRoot()+"/history/testdata/validation/"+f+".yaml", "history")...)
 	}
 	addHeaders(valid, false)
 	addItems(valid)
 	// ten more pre-merge headers with valid proofs
-	addHeaders(loadVectorFile("/repo/validation/testdata/header_with_proofs.json", "history"), false)
+	addHeaders(loadVectorFile(repoRoot()+"/validation/testdata/header_with_proofs.json", "history"), false)
 	// post-merge blocks: header RLP, body and receipts are genuine, but the header proofs in that
 	// file use an older container format, so the valid proof is unknown to the harness
-	forks := loadVectorFile("/repo/history/testdata/test_data_collection_of_forks_blocks.yaml", "history")
+	forks := loadVectorFile(repoRoot()+"/history/testdata/test_data_collection_of_forks_blocks.yaml", "history")
 	addHeaders(forks, true)
 	addItems(forks)
 	return order
